@@ -114,23 +114,41 @@ def r3(ctx):
         params = fi.params[1:]
         ctx.check(len(params) == nparams, "C20.R3", fi, "dispatch takes %d arguments" % nparams, witness=params)
         msg = params[-1]
-        tdef = [n for n in walk_own(fi.node) if isinstance(n, ast.Assign) and norm(n.value) == "type(%s)" % msg]
-        tv = norm(tdef[0].targets[0]) if tdef else None
-        calls = [c for c in walk_own(fi.node) if isinstance(c, ast.Call) and isinstance(c.func, ast.Subscript) and norm(c.func.value) == "self.registered_events"]
+        # by value: the callee is self.registered_events[K] with K = type(msg).__name__, read through temporaries
+        from .common import sym_expr
+        want_key = "type(%s).__name__" % msg
+
+        def val(e, at):
+            return sym_expr(fi, e, cfg.node_of(at), allow_calls=("type",))
+        calls = []
+        for c_ in walk_own(fi.node):
+            if isinstance(c_, ast.Call):
+                f = val(c_.func, c_)
+                if isinstance(f, ast.Subscript) and norm(f.value) == "self.registered_events":
+                    calls.append((c_, f))
         if not ctx.require("C20.R3", fi, "handler call self.registered_events[...](...)", len(calls), 1):
             continue
-        c = calls[0]
-        key = norm(c.func.slice)
-        ctx.check(tv is not None and key == "%s.__name__" % tv, "C20.R3", fi, "the handler is looked up by type(msg).__name__", witness=key, line=c.lineno)
+        c, f = calls[0]
+        key = norm(f.slice)
+        ctx.check(key == want_key, "C20.R3", fi, "the handler is looked up by type(msg).__name__", witness=key, line=c.lineno)
         ctx.check([norm(a) for a in c.args] == params and not c.keywords, "C20.R3", fi, "arguments are passed through unchanged and in order", witness=[norm(a) for a in c.args], line=c.lineno)
-        conds = [(norm(t), p) for (t, p) in cfg.conditions_of(cfg.node_of(c).id)]
-        ok = ("%s not in self.registered_events" % key, False) in conds or ("%s in self.registered_events" % key, True) in conds
-        ctx.check(ok, "C20.R3", fi, "the call is reached only when a handler is registered", witness=conds, line=c.lineno)
+
+        def member_conds(nid):
+            out = set()
+            for (t, p) in cfg.conditions_of(nid):
+                if isinstance(t, ast.Compare) and len(t.ops) == 1 and isinstance(t.ops[0], (ast.In, ast.NotIn)) and norm(t.comparators[0]) == "self.registered_events" \
+                        and norm(val(t.left, t)) == want_key:
+                    out.add(p == isinstance(t.ops[0], ast.In))       # True: the key is registered on this path
+            return out
+        # the lookup itself (which may be bound to a temporary before the call) and the call execute only for a registered key
+        lookups = [n for n in walk_own(fi.node) if isinstance(n, ast.Subscript) and norm(n.value) == "self.registered_events" and isinstance(n.ctx, ast.Load)]
+        ok = member_conds(cfg.node_of(c).id) == {True} or (bool(lookups) and all(member_conds(cfg.node_of(n).id) == {True} for n in lookups)
+                                                            and all(cfg.dominates(cfg.node_of(n).id, cfg.node_of(c).id) for n in lookups))
+        ctx.check(ok, "C20.R3", fi, "the call is reached only when a handler is registered", witness=[(norm(t), p) for (t, p) in cfg.conditions_of(cfg.node_of(c).id)], line=c.lineno)
         rz = [n for n in cfg.stmts((ast.Raise,))]
         okr = len(rz) == 1 and isinstance(rz[0].ast.exc, ast.Call) and norm(rz[0].ast.exc.func) == "DispatchError"
         if okr:
-            c2 = [(norm(t), p) for (t, p) in cfg.conditions_of(rz[0].id)]
-            okr = ("%s not in self.registered_events" % key, True) in c2 and cfg.node_of(c).id not in cfg.reachable(rz[0].id, skip_labels=())
+            okr = member_conds(rz[0].id) == {False} and cfg.node_of(c).id not in cfg.reachable(rz[0].id, skip_labels=())
         ctx.check(okr, "C20.R3", fi, "no handler -> DispatchError, nothing is called", line=rz[0].lineno if rz else 0)
         loops = [n for n in walk_own(fi.node) if isinstance(n, (ast.For, ast.While))]
         ctx.check(not loops, "C20.R3", fi, "exactly one handler is invoked (no loop)")
@@ -206,20 +224,53 @@ def r4(ctx):
 
 
 def r5(ctx):
+    """by value: what is stored as method._event is the annotation of the last of exactly n parameters of the method's signature,
+    however the parameter list is held (items() pairs or values(), named temporaries, positive or negative index)"""
+    from .common import sym_expr, leaf_cut, reach_without
     for q, n, idx in (("dispatch:server_event", 4, 3), ("dispatch:client_event", 3, 2)):
         fi = ctx.fn(q)
-        g = [x for x in walk_own(fi.node) if isinstance(x, ast.If) and norm(x.test) == "len(args) != %d" % n and any(isinstance(s, ast.Raise) for s in x.body)]
-        ctx.check(len(g) == 1, "C20.R5", fi, "%s requires exactly %d parameters" % (fi.name, n))
-        pd = [x for x in walk_own(fi.node) if isinstance(x, ast.Assign) and norm(x.targets[0]) == "parameter"]
-        ctx.check(len(pd) == 1 and norm(pd[0].value) == "args[%d][1]" % idx, "C20.R5", fi, "the message parameter is parameter %d" % idx, witness=[norm(p.value) for p in pd])
-        st = [x for x in walk_own(fi.node) if isinstance(x, ast.Assign) and norm(x.targets[0]) == "method._event"]
-        ctx.check(len(st) == 1 and norm(st[0].value) == "parameter.annotation", "C20.R5", fi, "the annotation of the message parameter is recorded on the method", witness=[norm(s.value) for s in st])
-        em = [x for x in walk_own(fi.node) if isinstance(x, ast.If) and norm(x.test) == "parameter.annotation is inspect._empty" and any(isinstance(s, ast.Raise) for s in x.body)]
-        ctx.check(len(em) == 1, "C20.R5", fi, "a missing annotation is refused")
+        cfg = cfg_of(fi)
+        mp = fi.params[0]
+        sig = "inspect.signature(%s)" % mp
+        plist = {"items": "list(%s.parameters.items())" % sig, "values": "list(%s.parameters.values())" % sig}
+        allow = lambda t: t in ("inspect.signature", "list") or t.endswith(".parameters.items") or t.endswith(".parameters.values")
+
+        def val(e, at):
+            return norm(sym_expr(fi, e, cfg.node_of(at), allow_calls=allow, depth=8))
+        st = [x for x in walk_own(fi.node) if isinstance(x, ast.Assign) and norm(x.targets[0]) == "%s._event" % mp]
+        if not ctx.require("C20.R5", fi, "store of %s._event" % mp, len(st), 1):
+            continue
+        v = val(st[0].value, st[0])
+        want = ["%s[%d][1].annotation" % (plist["items"], k) for k in (idx, idx - n)] + ["%s[%d].annotation" % (plist["values"], k) for k in (idx, idx - n)]
+        ctx.check(v in want, "C20.R5", fi, "the message parameter is parameter %d" % idx, witness=v)
+        ctx.check(v in want, "C20.R5", fi, "the annotation of the message parameter is recorded on the method", witness=v)
+        ctx.check(v.startswith(plist["items"]) or v.startswith(plist["values"]), "C20.R5", fi, "parameters are taken from the method signature, in order", witness=v)
+        S = cfg.node_of(st[0])
+        # exactly n parameters: with the edge on which len(parameters) == n removed, the store is unreachable
+        def arity(text):
+            return None
+        cut = {}
+        for nd in cfg.nodes:
+            if nd.kind == "test" and isinstance(nd.ast, ast.Compare) and len(nd.ast.ops) == 1 and isinstance(nd.ast.ops[0], (ast.Eq, ast.NotEq)):
+                l, r = nd.ast.left, nd.ast.comparators[0]
+                for a_, b_ in ((l, r), (r, l)):
+                    if isinstance(a_, ast.Call) and norm(a_.func) == "len" and len(a_.args) == 1 and isinstance(b_, ast.Constant) and b_.value == n \
+                            and val(a_.args[0], nd.ast) in (plist["items"], plist["values"], "%s.parameters" % sig):
+                        cut[nd.id] = "T" if isinstance(nd.ast.ops[0], ast.Eq) else "F"
+        ok = bool(cut) and S.id not in reach_without(cfg, cfg.entry, cut)
+        ctx.check(ok, "C20.R5", fi, "%s requires exactly %d parameters" % (fi.name, n), witness=sorted(norm(cfg.nodes[k].ast) for k in cut))
+        # a missing annotation is refused: with the edge on which the annotation is not `empty` removed, the store is unreachable
+        cut = {}
+        for nd in cfg.nodes:
+            if nd.kind == "test" and isinstance(nd.ast, ast.Compare) and len(nd.ast.ops) == 1 and isinstance(nd.ast.ops[0], (ast.Is, ast.IsNot, ast.Eq, ast.NotEq)):
+                l, r = nd.ast.left, nd.ast.comparators[0]
+                for a_, b_ in ((l, r), (r, l)):
+                    if norm(b_) in ("inspect._empty", "inspect.Parameter.empty", "inspect.Signature.empty") and val(a_, nd.ast) == v:
+                        cut[nd.id] = "F" if isinstance(nd.ast.ops[0], (ast.Is, ast.Eq)) else "T"
+        ok = bool(cut) and S.id not in reach_without(cfg, cfg.entry, cut)
+        ctx.check(ok, "C20.R5", fi, "a missing annotation is refused", witness=sorted(norm(cfg.nodes[k].ast) for k in cut))
         rets = [norm(r.value) for r in walk_own(fi.node) if isinstance(r, ast.Return)]
-        ctx.check(rets == ["method"], "C20.R5", fi, "the decorator returns the method itself")
-        ad = [x for x in walk_own(fi.node) if isinstance(x, ast.Assign) and norm(x.targets[0]) == "args"]
-        ctx.check(len(ad) == 1 and norm(ad[0].value) == "list(sig.parameters.items())", "C20.R5", fi, "parameters are taken from the method signature, in order")
+        ctx.check(rets == [mp], "C20.R5", fi, "the decorator returns the method itself")
 
 
 def r_idioms(ctx):
